@@ -12,3 +12,6 @@ import Glas.Props.C10Collect
 #print axioms Glas.Props.C10Collect.cyclic_wf
 #print axioms Glas.Props.C10Collect.cyclic_closed
 #print axioms Glas.Props.C10Collect.order_matters
+#print axioms Glas.Props.C10Collect.collect_acyclic_ok
+#print axioms Glas.Props.C10Collect.collect_acyclic
+#print axioms Glas.Props.C10Collect.collectAll_acyclic
